@@ -357,6 +357,83 @@ def apply_scalar_op(P, op, a):
     raise ValueError(op)
 
 
+def cl_angular_purity(a, b, rad, k, xs, order):
+    """Angular algebra as values: every operator (+, -, *, scalar * and /, outer product with radial coefficients or a list of
+    ranges) leaves BOTH operands unchanged, shares no memory with them, gives the same result when evaluated twice, and the
+    operands stay usable in later expressions -- the whole sequence `order` is evaluated on ONE pair of objects and every
+    result is compared with the closed form computed from the original coefficients (finally through SPolynomial)."""
+    from abel.tools.polynomial import Angular, SPolynomial
+    a0 = np.asarray(a, float).copy(); b0 = np.asarray(b, float).copy(); rad0 = np.asarray(rad, float).copy()
+    A = Angular(a0.copy()); B = Angular(b0.copy())
+    xs = np.asarray(xs, float)
+    sc = lambda c: np.sum(np.abs(c)) + 1.0
+    ea, eb = _ev(a0, xs), _ev(b0, xs)
+
+    def intact(step, res=None):
+        if not (A.c.shape == a0.shape and np.array_equal(A.c, a0)):
+            return False, '%s changed its left operand: %r -> %r' % (step, a0.tolist(), A.c.tolist())
+        if not (B.c.shape == b0.shape and np.array_equal(B.c, b0)):
+            return False, '%s changed its right operand: %r -> %r' % (step, b0.tolist(), B.c.tolist())
+        if res is not None and hasattr(res, 'c') and (np.shares_memory(res.c, A.c) or np.shares_memory(res.c, B.c)):
+            return False, '%s: the result shares memory with an operand' % step
+        return True, ''
+    exprs = {
+        'A+B': (lambda: A + B, ea + eb, sc(a0) + sc(b0)), 'B+A': (lambda: B + A, ea + eb, sc(a0) + sc(b0)),
+        'A-B': (lambda: A - B, ea - eb, sc(a0) + sc(b0)), 'B-A': (lambda: B - A, eb - ea, sc(a0) + sc(b0)),
+        'A*B': (lambda: A * B, ea * eb, sc(a0) * sc(b0)), 'B*A': (lambda: B * A, ea * eb, sc(a0) * sc(b0)),
+        'A+A': (lambda: A + A, 2 * ea, 2 * sc(a0)), 'A-A': (lambda: A - A, 0 * ea, 2 * sc(a0)), 'A*A': (lambda: A * A, ea * ea, sc(a0)**2),
+        'k*A': (lambda: k * A, k * ea, abs(k) * sc(a0)), 'B*k': (lambda: B * k, k * eb, abs(k) * sc(b0)),
+        'A/k': (lambda: A / k, ea / k, sc(a0) / abs(k)),
+        '(A+B)*B': (lambda: (A + B) * B, (ea + eb) * eb, (sc(a0) + sc(b0)) * sc(b0)),
+        '(A-B)+(B*A)': (lambda: (A - B) + (B * A), ea - eb + ea * eb, sc(a0) + sc(b0) + sc(a0) * sc(b0)),
+    }
+    for step in order:
+        f, ref, scale = exprs[step]
+        for rep in (1, 2):                       # evaluated twice: same value
+            R = f()
+            ok, d = _cmp('%s (evaluation %d)' % (step, rep), _ev(R.c, xs), ref, scale * np.ones_like(xs), 1e-12)
+            if not ok:
+                return ok, d
+            ok, d = intact(step, R)
+            if not ok:
+                return ok, d
+    # outer products with radial coefficients / ranges, then the polynomial class on the same B
+    M = np.asarray(rad0 * B)
+    if not (np.array_equal(M, np.outer(rad0, b0)) and np.array_equal(np.asarray(B * rad0), np.outer(rad0, b0))):
+        return False, 'radial * B is not the outer product with the original coefficients'
+    ok, d = intact('radial * B')
+    if not ok:
+        return ok, d
+    # constructors take their own copies and leave their arguments alone
+    cin = b0.copy()
+    L = Angular.legendre(cin); C0 = Angular(cin)
+    if not np.array_equal(cin, b0) or np.shares_memory(C0.c, cin) or np.shares_memory(L.c, cin):
+        return False, 'a constructor changed or aliased its argument'
+    L2 = Angular.legendre(cin)
+    if not np.array_equal(L.c, L2.c):
+        return False, 'legendre() evaluated twice differs'
+    for n in (0, 2, 4):
+        if not (np.array_equal(Angular.sin(n).c, Angular.sin(n).c) and np.array_equal(Angular.cos(n).c, Angular.cos(n).c)):
+            return False, 'sin/cos constructors not repeatable'
+    rngs = [(0.5, 2.5, rad0.copy()), (1.0, 3.0, rad0.copy(), 0.5, 2.0)]
+    RR = B * rngs
+    if not all(np.array_equal(np.asarray(t[2]), np.outer(rad0, b0)) for t in RR):
+        return False, 'B * ranges is not the outer product with the original coefficients'
+    ok, d = intact('B * ranges')
+    if not ok:
+        return ok, d
+    r = np.array([0.0, 0.4, 0.9, 1.3, 1.8, 2.2, 2.9]); cs = np.array([0.0, 0.3, -0.8, 1.0, 0.5, -0.2, 0.9])
+    P = SPolynomial(r, cs, 0.5, 2.5, rad0 * B)
+    func, ab, fs, as_ = spoly_reference(r, cs, 0.5, 2.5, np.outer(rad0, b0), 0.0, 1.0)
+    ok, d = _cmp('SPolynomial(radial * B).func', P.func, func, fs, RTOL_FUNC * 100)
+    if not ok:
+        return ok, d
+    ok, d = _cmp('SPolynomial(radial * B).abel', P.abel, ab, as_, RTOL_ABEL)
+    if not ok:
+        return ok, d
+    return intact('SPolynomial(radial * B)')
+
+
 def cl_scalar_copy(kind, args, a, op='all'):
     """copy independence; every scalar operator the classes define (*, num *, *=, /, /=, round trips): the whole
     object AND every piece carry the factor; the operand is unchanged; the pieces still add up to the object."""
@@ -529,7 +606,7 @@ def cl_approx_gaussian(tol):
 
 CLAUSES = dict(polynomial=cl_polynomial, piecewise=cl_piecewise, spolynomial=cl_spolynomial,
                piecewise_s=cl_piecewise_s, angular=cl_angular, scalar_copy=cl_scalar_copy,
-               bspline=cl_bspline, approx_gaussian=cl_approx_gaussian)
+               bspline=cl_bspline, approx_gaussian=cl_approx_gaussian, angular_purity=cl_angular_purity)
 
 
 def run_clause(name, args):
